@@ -71,7 +71,8 @@ def streamStep (s : Stream) : StepRes :=
   | none, [] => .err   -- active with nothing to read: excluded by load_obs
   | _, e :: rest =>
     let clock := s.evclock e
-    if !s.unsorted && clock < s.lastclock then .err
+    -- the first event of a stream (`cur_ev == NULL`) has no previous clock
+    if !s.unsorted && s.cur.isSome && clock < s.lastclock then .err
     else .ok { s with cur := some e, rest := rest, lastclock := clock }
 
 /-- `stream_cmp`: inverted comparison of `lastclock`, giving a min-heap. -/
